@@ -14,7 +14,7 @@ static OutPt2* vf_container_new(void) { __CPROVER_assert(g_nnew == 0, "one new v
 static inline bool Point64_eq(Point64 a, Point64 b) { return a.x == b.x && a.y == b.y; }
 //@extract file=CPP/Clipper2Lib/src/clipper.rectclip.cpp func=RectClip64::Add self=RectClipS vec=results_
 //@sub /&self->op_container_\.emplace_back\(OutPt2\(\)\)/vf_container_new()/ min=2
-//@sub /prevOp->pt == pt/Point64_eq(prevOp->pt, pt)/
+//@sub /prevOp->pt == pt/Point64_eq(prevOp->pt, pt)/ min=0
 //@end
 OutPt2 g_r0[1], g_r1[3]; OutPt2* g_res[3];
 void h_Add(void)
